@@ -308,7 +308,8 @@ Record Rn (n : nid) (x : node) (s : M.state) : Prop := {
   Rn_role : M.rl (M.nodes s (n2 n)) = absR (role x);
   Rn_log : M.log (M.nodes s (n2 n)) = absL pk (log x);
   Rn_commit : M.commit (M.nodes s (n2 n)) = n2 (commit x);
-  Rn_votes : role x = CANDIDATE -> length (M.votesFrom (M.nodes s (n2 n))) = n2 (votes x);
+  Rn_votes : role x = CANDIDATE ->
+               length (M.votesFrom (M.nodes s (n2 n))) = n2 (votes x) /\ In (n2 n) (M.votesFrom (M.nodes s (n2 n)));
   Rn_match : forall f m, In f V -> f <> n -> aget f (match_idx x) = Some m ->
                (n2 m <= M.matchIdx (M.nodes s (n2 n)) (n2 f))%nat;
   Rn_self : voted x = Some n -> In (n2 (term x), n2 n, n2 n) (M.grants s)
@@ -349,7 +350,8 @@ Record Hn (x : node) : Prop := {
   H_small : Forall small (log x);
   H_queue : Forall (fun q => small_cmd (fst q)) (queue x);
   H_rinv : replay_idx x <= applied x;
-  H_ro : Forall (fun y => RO_BASE <= y) (readonly x)
+  H_ro : Forall (fun y => RO_BASE <= y) (readonly x);
+  H_ac : applied x <= commit x
 }.
 
 Record R (g : gstate) (gh : ghost) (st : list nid) (s : M.state) : Prop := {
